@@ -3,6 +3,7 @@ package rules
 import (
 	"fmt"
 	"go/token"
+	"sort"
 	"strings"
 
 	"adgverif/an"
@@ -33,6 +34,9 @@ func init() {
 }
 
 func runC04(c *an.Ctx) {
+	// ---- R10: a record taken from the cloner's pools is fully re-initialised (a cached clone never inherits another message's fields)
+	c.Floor("C04-R10", 10)
+	c04ClonerPools(c, "C04-R10")
 	c.Floor("C04-R9", 3)
 	ecsHopToHop(c, "C04-R9")
 	if n := sharedLoopCompleteness(c, "C04-R8", "dnsmsg.", "ecscache.", "dnsserver/cache."); n > 0 {
@@ -722,4 +726,23 @@ func ecsKeyDeps(c *an.Ctx, rule string) {
 			"the ECS-dependent / independent parts of the key are not selected by the respIsECSDependent argument")
 	}
 
+}
+
+// c04ClonerPools runs the pooled-object re-initialisation rule over every
+// function of package dnsmsg that takes a record from a pool.
+func c04ClonerPools(c *an.Ctx, rule string) {
+	var keys []string
+	for _, fn := range c.FnsMatching("dnsmsg.") {
+		if fn.Blocks == nil || c.IsTestFile(fn.Pos()) {
+			continue
+		}
+		for _, call := range an.Calls(fn) {
+			if n, _ := poolGetStruct(call); n != nil {
+				keys = append(keys, an.FnKey(fn))
+				break
+			}
+		}
+	}
+	sort.Strings(keys)
+	sharedPoolInit(c, rule, keys...)
 }
